@@ -207,6 +207,53 @@ def oracles(ctx):
                     ctx.violation('grid rotation does not preserve objects / is not undone by the inverse', {'h': h, 'w': w, 'o': o.name})
 
 
+
+def grid_histories(ctx):
+    """ONE Grid object through a history of rotations, swaps, assignments and reads: after every operation the grid still equals an
+    independently maintained shadow, rotating it rearranges exactly the CURRENT objects and is undone by the inverse rotation;
+    each rotation is also compared with the model on the shadow's value"""
+    r = ctx.rng
+    batch = []
+    for _ in range(60 if ctx.tier == 'quick' else 600):
+        h, w = r.randint(1, 5), r.randint(1, 5)
+        t = tags(h * w)
+        shadow = [[t[i * w + j] for j in range(w)] for i in range(h)]
+        g = wire.mkgrid(tuple(map(tuple, shadow)))
+        hist = []
+        for _k in range(r.randint(3, 10)):
+            op = r.choice(['rot', 'rot', 'swap', 'swap', 'set', 'sub'])
+            if op == 'rot':
+                o = r.choice(ORIS)
+                hist.append(f'rot {o.name}')
+                rg = g * o
+                back = rg * (-o)
+                cur = tuple(map(tuple, shadow))
+                same = sorted(map(repr, itt.chain(*wire.cgrid(rg)))) == sorted(map(repr, itt.chain(*cur)))
+                ctx.case(('ghist', cur, o.value, len(hist)), True)
+                if wire.cgrid(back) != cur or not same:
+                    ctx.violation('after a history of operations on one grid, rotating it does not rearrange its current objects / is not undone by the inverse',
+                                  {'history': list(hist), 'grid': cur})
+                batch.append(('grid_rot_history', [1, 12, o.value, *wire.egrid(cur)], lambda v=wire.cgrid(rg): v, lambda R: R.grid(), ('hrot', cur, o.value, len(hist)), True))
+            elif op == 'swap':
+                p, q = (r.randrange(h), r.randrange(w)), (r.randrange(h), r.randrange(w))
+                hist.append(f'swap {p} {q}')
+                g.swap(P(p), P(q))
+                shadow[p[0]][p[1]], shadow[q[0]][q[1]] = shadow[q[0]][q[1]], shadow[p[0]][p[1]]
+            elif op == 'set':
+                p = (r.randrange(h), r.randrange(w))
+                ob = gen.rand_obj(r, depth=0)
+                hist.append(f'set {p}')
+                g[P(p)] = wire.mkobj(ob)
+                shadow[p[0]][p[1]] = ob
+            else:
+                hist.append('subgrid')
+                g.subgrid(Area((0, h - 1), (0, w - 1)))
+            if wire.cgrid(g) != tuple(map(tuple, shadow)):
+                ctx.violation('a grid no longer holds what was put into it', {'history': list(hist)})
+                break
+    return batch
+
+
 def compare(ctx, batch):
     reqs = [b[1] for b in batch]
     answers = ctx.model(reqs)
@@ -229,7 +276,7 @@ def run(ctx):
     ctx.rule = ('random orientations/positions/areas/transforms (|coord| up to 2^60), every grid shape up to the tier bound on tagged grids, '
                 'python-indexing probes; non-trivial = involves a non-identity orientation / a wrapped or out-of-range index / a non-empty set')
     oracles(ctx)
-    compare(ctx, list(cases(ctx)))
+    compare(ctx, list(cases(ctx)) + grid_histories(ctx))
     ctx.notes['exhaustive_part'] = 'all orientation triples; all grid shapes up to 6x6 (quick) / 9x9 (thorough) x 4 orientations'
 
 
